@@ -9,7 +9,7 @@
 From Coq Require Import ZArith List Lia.
 From BS Require Import Model.Base Model.Num Model.Arith Model.ExprParser Model.Script Model.Interp Model.LibCore Model.LibAll Model.LibPartial Model.Run Proofs.C09 Proofs.LibAll Proofs.LibPartial Proofs.C09term Proofs.C09termLib.
 From BS Require Import Proofs.C09termFull Proofs.C09termG Proofs.C09termFullG Proofs.C09termClosure.
-From BS Require Import Model.LibMore Model.LibCall Proofs.C09clInv Proofs.C09clLib Proofs.C09clSim Proofs.C09clTower Proofs.C09clMore.
+From BS Require Import Model.LibMore Model.LibCall Model.LibLift Proofs.C09clInv Proofs.C09clLib Proofs.C09clSim Proofs.C09clTower Proofs.C09clMore Proofs.C09clSeq Proofs.C09clEnc Proofs.C09clMain.
 Local Open Scope Z_scope.
 
 (* EXACT (1): the limit is tested at the head of every statement, after counting it: with L statements started, statement
@@ -258,7 +258,7 @@ Print Assumptions C09_terminates_combined_library_without_closures.
    (p = FLib [0; 0], heap [[p]], global p), `return p()` answers the depth-0 answer of the tower at every fuel.  No run from an empty
    heap builds that world (a closure's hidden array is allocated before the closure value exists and no script value refers to it),
    but the theorem quantifies over worlds; so for libfull2 the clause needs that invariant of reachable states, and no measure makes
-   lib_wf true of libfull2 as it stands.  NOT PROVED: the clause for libfull2 from initial worlds without closure values. *)
+   lib_wf true of libfull2 as it stands.  The clause for libfull2 from worlds that satisfy the reachability invariant: (7) below. *)
 Theorem C09_closures_forged_world_refutes_the_clause :
   let cfg := mkcfg 10 false true in
   let p := VFun (FLib [0%N; 0%N]) in
@@ -277,7 +277,7 @@ Print Assumptions C09_no_measure_for_closures_over_all_worlds.
    bound argument, and a head that is itself a closure has a SMALLER location - the shape systemPartial gives it.  [libfull2g] is
    libfull2 with that shape as a guard: calling a closure whose hidden array fails it is declined (LOracle).  Where the guard holds
    the two libraries are the same function; for libfull2g THE CLAUSE holds in every world with no premise on the library.  That the
-   guard holds at every closure call of a run of libfull2 from a world without closure values is the invariant that is NOT proved. *)
+   guard holds at every closure call of a run of libfull2 from a world without closure values is the invariant of (7) below. *)
 Theorem C09_guarded_library_is_the_combined_library_where_the_guard_holds : forall cfg cb name args w,
   (forall l, partial_loc name = Some l -> closure_ok w l = true) -> libfull2g cfg cb name args w = libfull2 cfg cb name args w.
 Proof. exact libfull2g_same. Qed.
@@ -385,40 +385,32 @@ Theorem C09_invariant_preserved_by_the_further_library : forall cfg H name args 
 Proof. intros cfg H name args w Hw Ha. exact (libmore_pres cfg H name args w Hw Ha). Qed.
 Print Assumptions C09_invariant_preserved_by_the_further_library.
 
-(* (7.4) FULL statement (kept visible):
-       C09_terminates_combined_library : forall cfg cfg' url_rel lint_lines, 0 < c_max cfg -> forall sc w, closures_wf w ->
-         exists fuel r, (forall bot fuel', fuel <= fuel' -> execute_script_bot cfg (libfull2 cfg') url_rel lint_lines bot fuel' sc w = r)
-                        /\ closures_wf (snd r).
-   PROVED under ONE premise that is left, [seq_pres]: the lifted LibSeq functions (Model/LibAll.v lift_seq: the ~37 array / object /
-   string functions run on LibSeq's single heap after a change of representation) preserve the invariant - spelled out below.  Everything
-   else is proved: the invariant is preserved by eval / call / exec (Proofs/C09clTower.v, one lemma per body function), by LibCore,
-   systemPartial and LibMore (7.3), by arraySort with any comparator (Proofs/C09clSim.v lib_sort_sim: the list being permuted and the stop
-   reason are carried along the growing hidden set) and by the closure call (partial_call_sim: the guard holds by the invariant); along
-   it the run with libfull2 IS the run with the guarded libfull2g of (6).  Method: the guarded tower answers ORt poison at depth 0, the
-   unguarded one any bot; by induction on the fuel, from every well-formed state, "the guarded answer is ORt poison, or both answers
-   are equal and well-formed again"; poison passes through every construct unchanged, and at a fuel where the guarded run has settled
-   to an answer independent of its depth-0 answer a poison different from that answer excludes the first case. *)
-Theorem C09_seq_pres_spelled :
-  seq_pres <->
-  (forall cfg (H : nat -> Prop) name args w, wf H w -> Forall (val_ok H (length (w_arrs w))) args ->
-     let r := lift_seq cfg name args w in
-     exists H', ext H (length (w_arrs w)) H' (length (w_arrs (snd r))) /\ wf H' (snd r) /\
-                match fst r with LVal v | LArgs v _ => val_ok H' (length (w_arrs (snd r))) v | _ => True end).
-Proof. split; intros X; exact X. Qed.
-Print Assumptions C09_seq_pres_spelled.
+(* (7.4) ... and so do the lifted LibSeq functions (Model/LibAll.v lift_seq: the ~37 array / object / string functions, run on LibSeq's
+   single heap after a change of representation).  On LibSeq's side (Proofs/C09clSeqV.v) every function of Q.lib keeps well-formed
+   cells well-formed, never writes a hidden position (it is never handed one), answers with an argument value, a stored value or a
+   fresh cell; reading the heap back RE-ENCODES every array through of_v . to_v, the hidden ones too (Proofs/C09clSeq.v), and the
+   numeral coding of function values gives a well-formed function reference back as itself - or, for a closure whose location does
+   not fit one code point, as a sane name that is not a closure name (Proofs/C09clEnc.v fn_roundtrip_holds). *)
+Theorem C09_invariant_preserved_by_the_lifted_library : forall cfg (H : nat -> Prop) name args w,
+  wf H w -> Forall (val_ok H (length (w_arrs w))) args ->
+  let r := lift_seq cfg name args w in
+  exists H', ext H (length (w_arrs w)) H' (length (w_arrs (snd r))) /\ wf H' (snd r) /\
+             match fst r with LVal v | LArgs v _ => val_ok H' (length (w_arrs (snd r))) v | _ => True end.
+Proof. intros cfg H name args w Hw Ha. exact (lift_seq_pres_holds cfg H name args w Hw Ha). Qed.
+Print Assumptions C09_invariant_preserved_by_the_lifted_library.
 
-Theorem C09_terminates_combined_library_partial : seq_pres ->
-  forall cfg cfg' url_rel lint_lines, 0 < c_max cfg ->
-  forall sc w, closures_wf w ->
-  exists fuel r, (forall bot fuel', (fuel <= fuel')%nat ->
-                    execute_script_bot cfg (libfull2 cfg') url_rel lint_lines bot fuel' sc w = r) /\
-                 closures_wf (snd r).
-Proof. exact libfull2_run_terminates_seq. Qed.
-Print Assumptions C09_terminates_combined_library_partial.
+Theorem C09_function_value_coding_round_trip : forall fr,
+  match fr with FLib nm => partial_loc nm <> None \/ Forall (fun c => (c + 1 < 1114113)%N) nm | FScript _ => True end ->
+  dec_fn (enc_fn fr) = fr \/
+  exists nm, dec_fn (enc_fn fr) = FLib nm /\ partial_loc nm = None /\ Forall (fun c => (c + 1 < 1114113)%N) nm.
+Proof. exact fn_roundtrip_holds. Qed.
+Print Assumptions C09_function_value_coding_round_trip.
 
-(* the step that makes the two runs coincide, for one library call (any callbacks in step): under the invariant the guarded and the
-   unguarded library give the same answer, well-formed again - or the guarded one passes the poison on *)
-Theorem C09_combined_library_in_step_with_guarded_partial : seq_pres ->
+(* (7.5) one library call, callbacks in step (the guarded tower answers ORt poison at depth 0, the unguarded one anything): under the
+   invariant the guarded and the unguarded library give the same answer, well-formed again - or the guarded one passes the poison on.
+   arraySort with any comparator: the list being permuted and the stop reason are carried along the growing hidden set
+   (Proofs/C09clSim.v lib_sort_sim); the closure call: the guard holds by the invariant (partial_call_sim). *)
+Theorem C09_combined_library_in_step_with_guarded :
   forall poison cfg cbT cbU,
   (forall H fv a w, wf H w -> val_ok H (length (w_arrs w)) fv -> Forall (val_ok H (length (w_arrs w))) a ->
      fst (cbT fv a w) = ORt poison \/
@@ -432,10 +424,55 @@ Theorem C09_combined_library_in_step_with_guarded_partial : seq_pres ->
    exists H', ext H (length (w_arrs w)) H' (length (w_arrs (snd rT))) /\ wf H' (snd rT) /\
               match fst rT with LVal v | LArgs v _ => val_ok H' (length (w_arrs (snd rT))) v | _ => True end).
 Proof.
-  intros Hseq poison cfg cbT cbU Hcb H name args w Hw Hn Ha.
-  exact (libfull2_sim_seq Hseq poison cfg cbT cbU Hcb H name args w Hw Hn Ha).
+  intros poison cfg cbT cbU Hcb H name args w Hw Hn Ha.
+  exact (libfull2_in_step poison cfg cbT cbU Hcb H name args w Hw Hn Ha).
 Qed.
-Print Assumptions C09_combined_library_in_step_with_guarded_partial.
+Print Assumptions C09_combined_library_in_step_with_guarded.
+
+(* (7.6) THE CLAUSE for the combined library libfull2, NO premise on the library: from every world that satisfies the invariant - in
+   particular from every world without closure values, dangling array references and ill-coded function names (7.1) - every run
+   under a positive statement limit terminates (the answer is the same from some fuel on, whatever the fuel and whatever the tower
+   answers at depth 0), and the final world satisfies the invariant again.  The invariant is preserved by eval / call / exec
+   (Proofs/C09clTower.v, one lemma per body function, locals and argument lists in flight carried by val_ok_mono) given (7.3)-(7.5).
+   Method: by induction on the fuel, from every well-formed state, "the guarded tower's answer is ORt poison, or both towers answer the
+   same and well-formed again"; poison passes through every construct unchanged; at a fuel where the guarded run (6) has settled to
+   an answer independent of its depth-0 answer, a poison different from that answer excludes the first case. *)
+Theorem C09_terminates_combined_library : forall cfg cfg' url_rel lint_lines, 0 < c_max cfg ->
+  forall sc w, closures_wf w ->
+  exists fuel r, (forall bot fuel', (fuel <= fuel')%nat ->
+                    execute_script_bot cfg (libfull2 cfg') url_rel lint_lines bot fuel' sc w = r) /\
+                 closures_wf (snd r).
+Proof. exact libfull2_run_terminates. Qed.
+Print Assumptions C09_terminates_combined_library.
+
+(* non-vacuity: every program, started in the empty world (execute_script injects the library's function values itself) *)
+Example C09_example_every_program_from_the_empty_world : forall cfg sc, 0 < c_max cfg ->
+  exists fuel r, (forall bot fuel', (fuel <= fuel')%nat ->
+                    execute_script_bot cfg (libfull2 cfg) no_url no_lint bot fuel' sc (world0 []) = r) /\
+                 closures_wf (snd r).
+Proof.
+  intros cfg sc Hpos. apply (C09_terminates_combined_library cfg cfg no_url no_lint Hpos sc (world0 [])).
+  apply C09_example_initial_worlds_are_wf.
+Qed.
+
+(* ... and that run IS the run with the guarded library of (6) *)
+Theorem C09_combined_library_run_is_the_guarded_run : forall cfg cfg' url_rel lint_lines, 0 < c_max cfg ->
+  forall sc w, closures_wf w ->
+  exists fuel, forall bot fuel', (fuel <= fuel')%nat ->
+    execute_script_bot cfg (libfull2 cfg') url_rel lint_lines bot fuel' sc w =
+    execute_script_bot cfg (libfull2g cfg') url_rel lint_lines bot fuel' sc w.
+Proof. exact libfull2_run_is_guarded_run. Qed.
+Print Assumptions C09_combined_library_run_is_the_guarded_run.
+
+(* the forged world of (5) is exactly what the invariant excludes: its hidden array 0 would have to hold a closure of a smaller location *)
+Theorem C09_forged_world_is_not_wf :
+  let p := VFun (FLib [0%N; 0%N]) in
+  ~ closures_wf (upd_arrs (upd_globals (world0 []) [(U "p", p)]) [[p]]).
+Proof.
+  intros p [H (A & B & _)]. cbn in B. apply Forall_cons_iff in B. destruct B as [B _]. cbn in B.
+  destruct (A 0%nat B) as (f & b & bs & E & _). cbn in E. discriminate E.
+Qed.
+Print Assumptions C09_forged_world_is_not_wf.
 
 (* closures at work under maxStatements = 20: a closure of a closure over arraySort, called with a script comparator that logs
      function cmp(a, b): systemLog('c'); return b - a endfunction
